@@ -123,6 +123,9 @@ TYPED = [
     ("Where", "lambda e: not (e.met() > 1)"),
     ("Select", "lambda e: e.jets().Select(lambda j: (j.pt(), j.eta()))"),
     ("Select", "lambda e: e.jets().Select(lambda j: {'p': j.pt(), 'q': j.eta(b=5)})"),
+    ("Select", "lambda e: e.jets().First().pt()"),
+    ("Select", "lambda e: e.jets().Last().pt()"),
+    ("Select", "lambda e: e.jets().Select(lambda j: j.eta()).First() + 1"),
 ]
 FAIL_KINDS = ["where_nonbool", "missing_arg", "cb_raise", "bad_lambda"]
 TERMS = ["pandas", "awkward", "root", "parquet"]
@@ -322,6 +325,8 @@ def _gen_plan(rng, faults, sync):
     if kind == "ok":
         return ["ok", lat, rng.choice(["token", "token", "none", "zero", "emptylist"])]
     if kind == "error":
+        if rng.random() < 0.15:  # not an Exception
+            return ["error", lat, rng.choice(sorted(BASE_ERRS if sync else BASE_ERRS - set(SYNC_ONLY_ERRS)))]
         return ["error", lat, rng.choice(ERR_NAMES)]
     return ["stall", rng.choice([0.5, 30.0, 4000.0]), None]
 
@@ -611,8 +616,21 @@ def _error_types():
     return out
 
 
+class AbortAll(BaseException):
+    "Not an Exception: code that cleans up in `except Exception` never sees it."
+
+
 ERRS = _error_types()
+# BaseException kinds: an executor that raises CancelledError itself, GeneratorExit, a custom
+# BaseException; and - only for calls made through the synchronous value(), whose private loop
+# they tear down - KeyboardInterrupt and SystemExit
+ERRS.update({"AbortAll": AbortAll, "GeneratorExit": GeneratorExit,
+             "SelfCancel": asyncio.CancelledError})
 ERR_NAMES = sorted(ERRS)
+SYNC_ONLY_ERRS = {"KeyboardInterrupt": KeyboardInterrupt, "SystemExit": SystemExit}
+ERRS.update(SYNC_ONLY_ERRS)
+SYNC_ERR_NAMES = sorted(ERRS)
+BASE_ERRS = {"AbortAll", "GeneratorExit", "SelfCancel", "KeyboardInterrupt", "SystemExit"}
 
 
 class Violation(Exception):
@@ -1276,6 +1294,10 @@ class Forest:
                 "peer_cancelled": False, "task": None, "exp_twin": None, "exp_hash": None}
         if plan[0] == "error":
             call["err"] = ERRS[plan[2]](f"injected for call {no}")
+            if plan[2] in BASE_ERRS:
+                self.stat("fault_executor_raised_base_exception")
+            if plan[2] == "SelfCancel":
+                call["may_cancel"] = True  # a layer in between may re-create the CancelledError
         self.calls.append(call)
         if title is not None and title_pool is None:
             self.by_title[title] = call
